@@ -373,22 +373,31 @@ func xval(ld *loaded, entry *ssa.Function, h *harnessSpec, params map[string]int
 	os.WriteFile(pf, b, 0o644)
 	defer os.Remove(pf)
 	for s := 0; s < k; s++ {
-		nr := runNative(bin, h.Name, []string{"VRT_REPLAY=" + pf, fmt.Sprintf("VRT_RANDOM=%d", seed*1000003+int64(s)+1)}, 20*time.Second)
+		env := []string{"VRT_REPLAY=" + pf, fmt.Sprintf("VRT_RANDOM=%d", seed*1000003+int64(s)+1)}
+		nr := runNative(bin, h.Name, env, 20*time.Second)
 		if nr.exit != 0 && nr.exit != 3 {
 			// native crash (e.g. stack overflow on a known finding): skip
 			continue
 		}
 		st := vm.Explore(vm.Config{Machine: ld.m, Entry: entry, Harness: h.Name, Workers: 1, Params: params, KnownOpen: map[string][]string{}, Concrete: nr.inputs, CollectObs: true, AllFailuresKnown: true})
-		nat := strings.Join(nr.trace, "\n") + "\n#" + strings.Join(dedupSorted(nr.fails), ",")
+		var nat string
 		match := false
-		for _, o := range st.Obs {
-			if o == nat {
-				match = true
-				break
+		// the native side free-runs the container's own goroutines (watchers): a
+		// mismatch is only reported if it shows on every one of four native runs
+		for try := 0; try < 4 && !match; try++ {
+			if try > 0 {
+				nr = runNative(bin, h.Name, env, 20*time.Second)
 			}
-		}
-		if nr.pruned && st.Completed == 0 {
-			match = true
+			nat = strings.Join(nr.trace, "\n") + "\n#" + strings.Join(dedupSorted(nr.fails), ",")
+			for _, o := range st.Obs {
+				if o == nat {
+					match = true
+					break
+				}
+			}
+			if nr.pruned && st.Completed == 0 {
+				match = true
+			}
 		}
 		if match {
 			okN++
